@@ -171,6 +171,10 @@ func c17(e *Env) {
 	}
 	ob4b := r.Ob("R4", "Execute:ensure×stream", "a streaming output that is (naturally) missing in the temp dir is not fatal")
 	for _, n := range sp.ensureStat {
+		if res.Reaches(func(m *core.Node) bool { return m == n }) == nil {
+			ob4b.OK(gx.Where(n), "the existence test is not reached for a streaming output")
+			continue
+		}
 		r2 := gx.Run(core.Scenario{Start: n, Result: errResult(n, core.ErrNotExist, false), FieldLoad: e.assumeStream(true)})
 		ob4b.Check(r2.NormalReturn() != nil, gx.Where(n), "ENOENT on a streaming output ⇒ Execute still completes", "a streaming output missing in the temp dir stops the workflow, although it never exists there")
 	}
